@@ -35,6 +35,8 @@ def main():
     ]
     run.assumptions += ["payload equality is python `==` (`_check_equal`); the test payloads are pairwise unequal under `==` or identical"]
     run.build_and_audit(["TdVerif.Props.C16"])
+    import c15_ast
+    c15_ast.check(run, "C16")      # ast-shape obligations for the transcribed functions (shared helper harness/c15_ast.py)
     if run.tier == "thorough" and not run.proof_broken:
         run.leanchecker(["TdVerif.Props.C16"])
     drv = run.driver()
@@ -43,6 +45,7 @@ def main():
     S.getitem_stream(run, drv)
     S.structure_stream(run, drv)
     S.setitem_stream(run, drv)
+    S.reshape_stream(run, drv)
     import c16_extended as E
     E.advanced_reads(run)
     E.writes(run)
